@@ -206,6 +206,21 @@ class SimSocket(Conn):
         data = self._client_wrote(bytes(data))
         self.peer.on_data(self, data)
 
+    def send(self, data, flags: int = 0) -> int:
+        """socket.send(): may take only a part of the data (a full send buffer, a slow reader).  The world's ``short_writes`` spec
+        {"max": n} limits every send() to at most n bytes; without it everything is taken at once."""
+        _mark("send")
+        if self.closed_by_client:
+            raise OSError(9, "Bad file descriptor")
+        data = bytes(data)
+        sw = getattr(self.world, "short_writes", None)
+        if sw and len(data) > int(sw.get("max", 1 << 30)):
+            data = data[: int(sw["max"])]
+            self.stats["short_write"] += 1
+        out = self._client_wrote(data)
+        self.peer.on_data(self, out)
+        return len(data)
+
     def _arrive(self) -> None:
         """One more item of the peer's stream becomes visible to the client (one arrival per socket call)."""
         while self._rx:
@@ -333,8 +348,10 @@ class SimSocket(Conn):
     def fileno(self) -> int:
         if self.closed_by_client:
             return -1
-        self.world.sim_fds[20000 + self.cid] = self
-        return 20000 + self.cid
+        # descriptor numbers as a process sees them: small by default, above FD_SETSIZE when the process already holds many
+        base = int(getattr(self.world, "fd_base", 700))
+        self.world.sim_fds[base + self.cid] = self
+        return base + self.cid
 
     def gettimeout(self):
         return self._timeout
